@@ -233,7 +233,7 @@ func (e *ExpressionAtom) GetSnapshot() string {
 		buff.WriteString(e.Constant.GetSnapshot())
 	} else if e.FunctionCall != nil && e.ExpressionAtom == nil {
 		buff.WriteString(e.FunctionCall.GetSnapshot())
-	} else if e.FunctionCall == nil && e.ExpressionAtom != nil && len(e.VariableName) == 0 {
+	} else if e.FunctionCall == nil && e.ExpressionAtom != nil && len(e.VariableName) == 0 && e.ArrayMapSelector == nil {
 		if e.Negated {
 			buff.WriteString("!")
 		}
